@@ -35,6 +35,7 @@ class Context:
     def res(self) -> Resolver:
         if self._res is None:
             self._res = Resolver(self.prog)
+            canonical_internal_calls(self.prog, self._res)
         return self._res
 
     @property
@@ -54,6 +55,56 @@ class Context:
         if self._rfx is None:
             self._rfx = RngEffects(self.prog, self.res)
         return self._rfx
+
+
+def canonical_internal_calls(prog: Program, res) -> int:
+    """How an argument is passed to one of the package's own functions -- by position or by keyword -- is not something a
+    rule may depend on.  For every call that resolves to exactly one internal function (or class constructor) with plain
+    parameters, the leading keywords that follow the declaration order are moved into their positional slots (Python
+    binds them identically), and the call node is annotated with the parameter names, so that `util.call_arg` finds an
+    argument by position *or* by name whichever way it was written.  Done once, in place, right after the resolver is
+    built and before any rule reads a call."""
+    from .model import ClassInfo, FuncInfo
+
+    n = 0
+    for fi in list(prog.functions.values()):
+        for c in ast.walk(fi.node):
+            if not isinstance(c, ast.Call) or hasattr(c, "_sa_params"):
+                continue
+            try:
+                tg = list(res.call_targets(fi, c))
+            except Exception:
+                continue
+            if len(tg) != 1:
+                continue
+            t = tg[0]
+            fn = None
+            skip = 0
+            if isinstance(t, FuncInfo):
+                fn = t
+                skip = 1 if (t.cls is not None and not t.is_staticmethod and t.params and t.params[0] in ("self", "cls")) else 0
+                if skip and isinstance(c.func, ast.Attribute) and isinstance(c.func.value, ast.Name) and t.cls is not None and c.func.value.id == t.cls.name:
+                    continue  # Class.method(obj, ...): the receiver is the first positional argument
+            elif isinstance(t, ClassInfo):
+                fn = t.methods.get("__init__")
+                skip = 1
+            if fn is None:
+                continue
+            a = fn.node.args
+            if a.vararg or a.posonlyargs:
+                continue
+            params = [p.arg for p in a.args][skip:]
+            c._sa_params = params
+            if any(isinstance(x, ast.Starred) for x in c.args) or any(k.arg is None for k in c.keywords):
+                continue
+            k = len(c.args)
+            moved = 0
+            while c.keywords and k < len(params) and c.keywords[0].arg == params[k]:
+                c.args.append(c.keywords.pop(0).value)
+                k += 1
+                moved += 1
+            n += moved
+    return n
 
 
 @dataclass
